@@ -31,6 +31,7 @@ type Op struct {
 	N    int
 	Err  string
 	At   time.Duration
+	Tick int // vrt.Tick() event number
 }
 
 type queue struct {
@@ -113,7 +114,7 @@ func (c *Conn) WriteClosed() bool { return c.out.wclosed }
 func (c *Conn) Buffered() int { return len(c.in.data) }
 
 func (c *Conn) logOp(kind string, n int, err error) {
-	o := Op{Tid: vrt.CurID(), Kind: kind, N: n, At: vrt.Now()}
+	o := Op{Tid: vrt.CurID(), Kind: kind, N: n, At: vrt.Now(), Tick: vrt.Tick()}
 	if err != nil {
 		o.Err = err.Error()
 	}
